@@ -35,7 +35,87 @@ PERCENTILE_VALUE = dict(
     cover=["return"],
 )
 
-CONTRACTS = [PERCENTILE_VALUE]
+# ------------------------------------------------------------------------------------------------ GlobalStats.metrics: the per-task record of a race
+OPM = "rec{?task:str,operation:str}"
+KEY = lambda r: f"({r}['task'] if has({r}, 'task') else {r}['operation'])"  # noqa: E731  the name a record is filed under (races before 0.8.0 have no 'task')
+METRICS = dict(
+    target="esrally/metrics.py::GlobalStats.metrics",
+    prop="C08",
+    self_type="obj[GlobalStats]",
+    params={"task": "str"},
+    fields={"GlobalStats.op_metrics": f"list[{OPM}]"},
+    loops={0: dict(inv=[f"forall(lambda j: implies(0 <= j and j < _i, {KEY('self.op_metrics[j]')} != task))"])},
+    returns=f"opt[{OPM}]",
+    ensures=[
+        # the FIRST record filed under that task name -- a record that HAS a task name is never found through its operation name
+        f"implies(result is None, forall(lambda j: implies(0 <= j and j < len(self.op_metrics), {KEY('self.op_metrics[j]')} != task)))",
+        f"implies(result is not None, exists(lambda i: 0 <= i and i < len(self.op_metrics) and ref(result) == ref(self.op_metrics[i]) and {KEY('self.op_metrics[i]')} == task and "
+        f"forall(lambda j: implies(0 <= j and j < i, {KEY('self.op_metrics[j]')} != task))))",
+    ],
+    cover=["return"],
+)
+
+CONTRACTS = [PERCENTILE_VALUE, METRICS]
 ASSUMPTIONS = ["exact-real arithmetic for percentile interpolation (floats as reals)"]
-NOT_DECIDED = ["store filters, stats, error rate, result assembly, persistence round trip (not yet under contract in this revision)"]
+NOT_DECIDED = ["InMemoryMetricsStore filters / get_stats / error rate, result assembly (GlobalStatsCalculator.__call__) and the race.json round trip are covered by the bounded stand-in and the call-site obligations only"]
 TRUSTED = []
+
+
+def extra_checks(runner, ev):
+    """1. Call-site obligations (syntactic, on the real AST): the per-task result metrics are computed from NORMAL samples only -- in
+       GlobalStatsCalculator.summary_stats / single_latency / error_rate every query of the store (and every helper of the calculator that takes a
+       sample_type) is given sample_type=SampleType.Normal explicitly (get_unit excepted: units do not depend on the sample type).
+    2. BOUNDED stand-in: the real results pipeline on generated stores (see bounded/C08_results.py)."""
+    import ast
+    import json
+    import os
+
+    from pyvc.extract import RepoIndex
+    from pyvc.run import bounded_check
+
+    m = RepoIndex().module("esrally/metrics.py")
+    helpers = {name for (cls, name), fn in m.methods.items() if cls == "GlobalStatsCalculator" and any(a.arg == "sample_type" for a in fn.args.args + fn.args.kwonlyargs)}
+    bad, n = [], 0
+    for meth in ("summary_stats", "single_latency", "error_rate"):
+        fn = m.methods.get(("GlobalStatsCalculator", meth))
+        if fn is None:
+            bad.append({"method": meth, "problem": "method not found"})
+            continue
+        normal_locals = set()
+        for node in ast.walk(fn):
+            if isinstance(node, ast.Assign) and len(node.targets) == 1 and isinstance(node.targets[0], ast.Name):
+                if ast.unparse(node.value) == "SampleType.Normal":
+                    normal_locals.add(node.targets[0].id)
+                else:
+                    normal_locals.discard(node.targets[0].id)
+        for call in [c for c in ast.walk(fn) if isinstance(c, ast.Call) and isinstance(c.func, ast.Attribute)]:
+            callee = ast.unparse(call.func)
+            is_store = callee.startswith("self.store.get") and callee != "self.store.get_unit"
+            is_helper = callee.startswith("self.") and callee.count(".") == 1 and call.func.attr in helpers
+            if not (is_store or is_helper):
+                continue
+            n += 1
+            kw = next((k for k in call.keywords if k.arg == "sample_type"), None)
+            val = ast.unparse(kw.value) if kw is not None else None
+            if not (val == "SampleType.Normal" or (val in normal_locals)):
+                bad.append({"method": meth, "line": call.lineno, "call": ast.unparse(call)[:160], "problem": "sample_type=SampleType.Normal is not passed explicitly" if kw is None else f"sample_type={val}"})
+    cov = ev["coverage"]
+    cov["call_site_obligations"] = {"store queries of per-task result metrics": n, "failed": bad}
+    cov["obligations"] += n
+    cov["discharged"] += n - min(n, len(bad))
+    rc = 0
+    if n < 5:
+        cov["undecided_now"].append({"function": "GlobalStatsCalculator", "kind": "vacuity", "detail": f"only {n} store queries found"})
+        rc = 2
+    if bad:
+        outdir = os.path.join(os.path.dirname(os.path.dirname(os.path.abspath(__file__))), "out", "C08")
+        os.makedirs(outdir, exist_ok=True)
+        path = os.path.join(outdir, "normal_samples_only.json")
+        json.dump({"property": "C08", "obligation": "C08/GlobalStatsCalculator/normal-samples-only", "target": "esrally/metrics.py::GlobalStatsCalculator", "failed": bad,
+                   "verifier": "syntactic call-site obligation on the real AST"}, open(path, "w"), indent=1)
+        print(f"VIOLATION property=C08 replay={path} no-failing-input-found")
+        ev["violations"] += len(bad)
+        rc = 1
+    rb = bounded_check(ev, "C08", "C08_results.py", "GlobalStatsCalculator / GlobalStats.metrics / race.json round trip on generated stores (real code)", "esrally/metrics.py::GlobalStatsCalculator.__call__")
+    return max(rc, rb) if 3 not in (rc, rb) else 3
+
